@@ -38,6 +38,7 @@ COMPILER_REPLAYS = {
     "u_varname": ["replay/c19/shared_variant.sh"],
     "u_gopkgs": ["replay/c02/unused_import.sh"],
     "u_rttypes": ["replay/c02/undefined_tuple.sh"],
+    "u_derive": ["replay/c18/prim_fields.sh"],
     "u_patlit": ["replay/c03/run.sh"],
     "u_annot": ["replay/c03/annotations.sh"],
     "u_binop": ["replay/c09/short_circuit.sh"],
